@@ -26,6 +26,9 @@ variable {κ ν : Type} [DecidableEq κ]
 
 def empty (cap : Nat) : Cache κ ν := ⟨cap, []⟩
 
+/-- insert into a duplicate-free list (used by the history tracker of `F3.ChainX.Spec`) -/
+def insNew {α : Type} [DecidableEq α] (k : α) (l : List α) : List α := if k ∈ l then l else k :: l
+
 /-- first value stored under `k` -/
 def find? : List (κ × ν) → κ → Option ν
   | [], _ => none
